@@ -111,7 +111,7 @@ func RunC16(rep *explore.Report, tier string) {
 	if tier == "thorough" {
 		maxN, devBound, fullOrderN = 5, 2, 4
 	}
-	rep.Set("rule", fmt.Sprintf("every vector of n<=%d contributions in 0..4 with every fold flag; for n<=%d every insertion order (larger n: ascending and descending), every map iteration order with <=%d non-default choices per execution; oracle refLayers; distinct_nontrivial = distinct pot structures observed", maxN, fullOrderN, devBound))
+	rep.Set("rule", fmt.Sprintf("every vector of n<=%d contributions in 0..4 with every fold flag; for n<=%d every insertion order (larger n: ascending and descending), every map iteration order with <=%d non-default choices per execution; plus 5 and 6 (thorough: 7) players with contributions in {1,2,3} inserted in ascending and descending seat order; oracle refLayers; distinct_nontrivial = distinct pot structures observed", maxN, fullOrderN, devBound))
 	rep.Set("map_order_deviation_bound", int64(devBound))
 	var structures sync.Map
 	var nStruct, execs, vectors int64
@@ -151,6 +151,43 @@ func RunC16(rep *explore.Report, tier string) {
 			}
 		})
 	}
+	// reduced domain for more players: contributions in {1,2,3}, every fold flag, ascending and descending insertion
+	for _, n := range []int{5, 6, 7} {
+		if n == 7 && tier != "thorough" {
+			continue
+		}
+		vals := []int64{1, 2, 3}
+		asc, desc := make([]int, n), make([]int, n)
+		for i := range asc {
+			asc[i], desc[i] = i, n-1-i
+		}
+		total := ipow(len(vals), n) * ipow(2, n)
+		parallel(total, n, func(w int, k int64) {
+			base := &Vec{Contrib: make([]int64, n), Fold: make([]bool, n)}
+			kk := k
+			for i := 0; i < n; i++ {
+				base.Contrib[i] = vals[kk%int64(len(vals))]
+				kk /= int64(len(vals))
+			}
+			for i := 0; i < n; i++ {
+				base.Fold[i] = kk%2 == 1
+				kk /= 2
+			}
+			atomic.AddInt64(&vectors, 1)
+			for _, ord := range [][]int{asc, desc} {
+				v := &Vec{Contrib: base.Contrib, Fold: base.Fold, Order: ord}
+				pots := BuildPots(v)
+				if sig, msg := CheckPots(v.Contrib, v.Fold, pots); sig != "" {
+					rep.Violation(violation("C16", sig, msg, v))
+				}
+				key := potShape(pots)
+				if _, loaded := structures.LoadOrStore(key, true); !loaded {
+					atomic.AddInt64(&nStruct, 1)
+				}
+				atomic.AddInt64(&execs, 1)
+			}
+		})
+	}
 	rep.Add("states", vectors)
 	rep.Add("transitions", execs)
 	rep.Add("traces_validated_against_impl", execs)
@@ -173,7 +210,7 @@ func RunC02(rep *explore.Report, tier string) {
 	if tier == "thorough" {
 		maxN, devN = 5, 4
 	}
-	rep.Set("rule", fmt.Sprintf("every vector of n<=%d players x contribution 0..4 x fold flag x strength class 0..2 fed to pot.LevelList and settlement.Result exactly as the engine does (for n<=%d also every map order with <=1 non-default choice); oracle refSettle on the per-player changes; distinct_nontrivial = distinct result vectors observed", maxN, devN))
+	rep.Set("rule", fmt.Sprintf("every vector of n<=%d players x contribution 0..4 x fold flag x strength class 0..2 fed to pot.LevelList and settlement.Result exactly as the engine does (for n<=%d also every map order with <=1 non-default choice); plus 5 players with contributions in {1,2} and {1,2,3} and 6 players with contributions in {1,2}, strengths {0,1}; oracle refSettle on the per-player changes; distinct_nontrivial = distinct result vectors observed", maxN, devN))
 	var execs, vectors, constrained int64
 	var outcomes sync.Map
 	var nOut int64
@@ -214,6 +251,51 @@ func RunC02(rep *explore.Report, tier string) {
 			})
 			atomic.AddInt64(&execs, int64(e))
 			_ = constrained
+		})
+	}
+	// reduced domains for more players: contributions {1,2} (5 and 6 players), {1,2,3} (5 players), strengths {0,1}
+	for _, rd := range []struct {
+		n    int
+		vals []int64
+	}{{5, []int64{1, 2}}, {5, []int64{1, 2, 3}}, {6, []int64{1, 2}}} {
+		n, vals := rd.n, rd.vals
+		total := ipow(len(vals), n) * ipow(2, n) * ipow(2, n)
+		parallel(total, n, func(w int, k int64) {
+			v := &Vec{Contrib: make([]int64, n), Fold: make([]bool, n), Strength: make([]int, n)}
+			kk := k
+			for i := 0; i < n; i++ {
+				v.Contrib[i] = vals[kk%int64(len(vals))]
+				kk /= int64(len(vals))
+			}
+			for i := 0; i < n; i++ {
+				v.Fold[i] = kk%2 == 1
+				kk /= 2
+			}
+			for i := 0; i < n; i++ {
+				v.Strength[i] = int(kk % 2)
+				kk /= 2
+			}
+			atomic.AddInt64(&vectors, 1)
+			bank := make([]int64, n)
+			score := make([]int, n)
+			for i := range bank {
+				bank[i] = 10
+				score[i] = 100 * (v.Strength[i] + 1)
+			}
+			pots := BuildPots(v)
+			res := Settle(pots, bank, v.Fold, score)
+			changed := make([]int64, n)
+			for _, pr := range res.Players {
+				changed[pr.Idx] = pr.Changed
+			}
+			if sig, msg := CheckSettlement(v.Contrib, v.Fold, v.Strength, changed); sig != "" {
+				rep.Violation(violation("C02", sig, msg, v))
+			}
+			key := fmt.Sprint(changed)
+			if _, loaded := outcomes.LoadOrStore(key, true); !loaded {
+				atomic.AddInt64(&nOut, 1)
+			}
+			atomic.AddInt64(&execs, 1)
 		})
 	}
 	rep.Add("states", vectors)
